@@ -318,6 +318,31 @@ def cmd_run(a: argparse.Namespace) -> None:
                 print(k, r["id"], r["verdict"], flush=True)
 
 
+def cmd_recheck(a: argparse.Namespace) -> None:
+    """Survivors of the named files are judged again by further properties (differential checks such as C04 see one-sided
+    edits that the owning property's check has no reason to notice)."""
+    path = os.path.join(OUTDIR, "results.jsonl")
+    rs = [json.loads(l) for l in open(path, encoding="utf-8")]
+    keep = set(a.files.split(",")) if a.files else None
+    extra = a.props.split(",")
+    todo = [r for r in rs if r["verdict"] == "survived" and (keep is None or r["file"] in keep or os.path.basename(r["file"]) in keep)]
+    print(len(todo), "survivors to re-judge with", extra, flush=True)
+
+    def again(r: Dict[str, Any]) -> Dict[str, Any]:
+        m = {k: r[k] for k in ("file", "node", "op", "line", "scope", "id")}
+        m["props"] = [p for p in extra if p not in r["props"]]
+        out = run_one(m, None)
+        out["props"] = r["props"] + m["props"]
+        return out
+
+    with ThreadPoolExecutor(a.jobs) as ex:
+        new = {r["id"]: r for r in ex.map(again, todo)}
+    with open(path, "w", encoding="utf-8") as fh:
+        for r in rs:
+            fh.write(json.dumps(new.get(r["id"], r)) + "\n")
+    print(sum(1 for r in new.values() if r["verdict"] == "killed"), "of them killed now")
+
+
 def cmd_report(_a: argparse.Namespace) -> None:
     rs = [json.loads(l) for l in open(os.path.join(OUTDIR, "results.jsonl"), encoding="utf-8")]
     from collections import Counter
@@ -343,8 +368,12 @@ def main() -> None:
     r.add_argument("--stride", type=int, default=1)
     r.add_argument("--offset", type=int, default=0)
     sp.add_parser("report")
+    c = sp.add_parser("recheck")
+    c.add_argument("--props", required=True)
+    c.add_argument("--files", default="")
+    c.add_argument("--jobs", type=int, default=12)
     a = ap.parse_args()
-    {"gen": cmd_gen, "run": cmd_run, "report": cmd_report}[a.cmd](a)
+    {"gen": cmd_gen, "run": cmd_run, "report": cmd_report, "recheck": cmd_recheck}[a.cmd](a)
 
 
 if __name__ == "__main__":
